@@ -150,7 +150,8 @@ class StartImpl(LifecycleKernel):
         gs = self.gs
         return self.lc_frame() + [Loc(gs.sched_key), gs.loc("next_scheduled_time"),
                                   Loc((self.g.oid, "stop_throws")), Loc((self.g.oid, "first_stop_throw")),
-                                  self.local_obj(I, "stop_failures").loc("has")]
+                                  self.local_obj(I, "stop_failures").loc("has"),
+                                  self.local_obj(I, "stop_failures").loc("first_ann")]
 
     def inv_start(self, I, ctx):
         gs = self.gs
@@ -266,3 +267,136 @@ class StartImplRoot(StartImpl):
 
 
 KERNELS = [StartImplNested, StartImplRoot]
+
+
+class StopImpl(LifecycleKernel):
+    fn_name = "stop_impl"
+    filter = "stop_impl"
+    sig = "void (const void *, const hgraph::GraphView &, hgraph::DateTime)"
+    property_ids = ("C14",)
+    title = "graph stop_impl: every node gets one stop attempt in reverse order; first error rethrown afterwards"
+    max_paths = 20000
+
+    def setup(self, I):
+        ctx = I.ctx
+        gs = self.make_gs(I)
+        self.make_ghost(I)
+        self.ts = z3.Int("stop_time")
+        ctx.assume(z3.And(self.ts >= 0, self.ts <= MAX_DT))
+        ctx.assume(z3.Not(gs.stopping0))
+        self.schema = Obj("GraphSchema", "schema")
+        ctx.store[(self.schema.oid, "edges")] = Obj("edges", "edges")
+        self.schema_null = z3.Bool("schema_null")
+        return None, {"context": self.ctx_token, "graph": gs.view, "stop_time": self.ts}
+
+    def gv_schema(self, I, o, a, n):
+        return Ptr(self.schema, self.schema_null)
+
+    def f_unbind_edges(self, I, args, n):
+        I.ctx.write(Loc((self.g.oid, "unbound")), self.gg(I.ctx, "unbound") + 1)
+        return VOID
+
+    def f_release_alternative_subscriptions(self, I, args, n):
+        return VOID
+
+    def inv(self, I, ctx):
+        gs = self.gs
+        idx = self.local(I, "index")
+        rec = self.local_obj(I, "exceptions")
+        st, ss = self.lc(ctx, "stops"), self.lc(ctx, "stop_stamp")
+        yield "index-range", z3.And(0 <= idx, idx <= gs.n)
+        yield "stopped-suffix-once-in-reverse[C14]", z3.And(
+            self.stopped_once_in_reverse(ctx, idx, gs.n),
+            z3.ForAll([qj], z3.Implies(z3.And(qj >= idx, qj < gs.n), ss[qj] < self.lc(ctx, "clock"))))
+        yield "rest-untouched", z3.ForAll([qj], z3.Implies(z3.Or(qj < idx, qj >= gs.n), z3.And(
+            st[qj] == self.lc0["stops"][qj], self.lc(ctx, "phase")[qj] == self.lc0["phase"][qj])))
+        yield "starts-untouched", z3.And(self.lc(ctx, "starts") == self.lc0["starts"],
+                                         self.lc(ctx, "start_stamp") == self.lc0["start_stamp"])
+        yield "clock-monotone", self.lc(ctx, "clock") >= self.lc0["clock"]
+        yield "header", z3.And(gs.get(ctx, "evaluation_time") == self.ts, gs.get(ctx, "started"),
+                               gs.get(ctx, "stopping"))
+        yield "recorder-tracks-failures[C14 first error kept]", z3.And(
+            rec.has(ctx) == (self.gg(ctx, "stop_throws") > 0), self.gg(ctx, "stop_throws") >= 0,
+            z3.Implies(rec.has(ctx), z3.And(self.gg(ctx, "first_stop_throw") >= idx,
+                                            self.gg(ctx, "first_stop_throw") < gs.n)),
+            z3.Implies(z3.Not(rec.has(ctx)), self.gg(ctx, "first_stop_throw") == -1))
+        for x in self.extra_inv(I, ctx, rec):
+            yield x
+
+    def extra_inv(self, I, ctx, rec):
+        return []
+
+    def frame(self, I, ctx):
+        gs = self.gs
+        rec = self.local_obj(I, "exceptions")
+        return self.lc_frame() + [Loc(gs.sched_key), gs.loc("next_scheduled_time"), Loc((self.g.oid, "stop_throws")),
+                                  Loc((self.g.oid, "first_stop_throw")), rec.loc("has"), rec.loc("first_ann")]
+
+    @property
+    def loops(self):
+        return {0: LoopSpec(self.inv, self.frame)}
+
+    def post(self, I, ret):
+        ctx = I.ctx
+        gs = self.gs
+        was = gs.started0
+        ctx.oblige("ensures.not-started:no-op", z3.Implies(z3.Not(was), z3.And(
+            gs.sched(ctx) == gs.sched0, gs.header_unchanged(ctx, ctx.pre_store), self.untouched(ctx, -(2 ** 62)))),
+            kind="post-normal")
+        ctx.oblige("ensures.every-node-stopped-exactly-once-in-reverse[C14]",
+                   z3.Implies(was, self.stopped_once_in_reverse(ctx, 0, gs.n)), kind="post-normal")
+        ctx.oblige("ensures.graph-stopped,time=stop_time,not-stopping", z3.Implies(was, z3.And(
+            z3.Not(gs.get(ctx, "started")), gs.get(ctx, "evaluation_time") == self.ts,
+            z3.Not(gs.get(ctx, "stopping")))), kind="post-normal")
+        ctx.oblige("ensures.normal-return-only-if-no-stop-failed[C14 error reaches the caller]",
+                   self.gg(ctx, "stop_throws") == 0, kind="post-normal")
+        ctx.oblige("ensures.edges-unbound-once-when-schema-present",
+                   z3.Implies(was, self.gg(ctx, "unbound") == z3.If(self.schema_null, 0, 1)), kind="post-normal")
+
+    def post_exc(self, I, exc):
+        ctx = I.ctx
+        gs = self.gs
+        past = z3.And(gs.started0, self.ts < gs.T0)
+        is_past_error = z3.BoolVal(exc.cls == "std::invalid_argument")
+        recorded = z3.BoolVal(bool(exc.tags.get("recorded")))
+        ctx.oblige("raises.invalid_argument-iff-stop-in-the-past-else-a-recorded-stop-failure",
+                   z3.Or(z3.And(is_past_error, past), z3.And(recorded, gs.started0, z3.Not(past),
+                                                            self.gg(ctx, "stop_throws") >= 1)),
+                   kind="post-exceptional")
+        ctx.oblige("raises.stop-in-the-past:state-unchanged", z3.Implies(past, z3.And(
+            gs.sched(ctx) == gs.sched0, gs.header_unchanged(ctx, ctx.pre_store), self.untouched(ctx, -(2 ** 62)))),
+            kind="post-exceptional")
+        ctx.oblige("raises.stop-failure:every-node-still-stopped-exactly-once-in-reverse[C14 a failing stop does not "
+                   "prevent the remaining nodes from stopping]",
+                   z3.Implies(z3.Not(past), self.stopped_once_in_reverse(ctx, 0, gs.n)), kind="post-exceptional")
+        ctx.oblige("raises.stop-failure:graph-stopped,not-stopping", z3.Implies(z3.Not(past), z3.And(
+            z3.Not(gs.get(ctx, "started")), z3.Not(gs.get(ctx, "stopping")))), kind="post-exceptional")
+        self.post_exc_extra(I, exc, past)
+
+    def post_exc_extra(self, I, exc, past):
+        pass
+
+
+class StopImplNested(StopImpl):
+    name = "graph.cpp:stop_impl<Nested>"
+    nested = True
+
+
+class StopImplRoot(StopImpl):
+    name = "graph.cpp:stop_impl<Root>"
+    nested = False
+
+    def extra_inv(self, I, ctx, rec):
+        yield "first-error-names-first-failing-node[C14]", z3.Implies(
+            rec.has(ctx), ctx.store[(rec.oid, "first_ann")] == self.gg(ctx, "first_stop_throw"))
+
+    def post_exc_extra(self, I, exc, past):
+        ctx = I.ctx
+        ann = exc.tags.get("annotated_index")
+        ctx.oblige("raises.root:error-names-the-first-failing-node[C14 original error reaches the caller naming the node]",
+                   z3.Implies(z3.Not(past), z3.And(z3.BoolVal(ann is not None),
+                                                   (ann == self.gg(ctx, "first_stop_throw")) if ann is not None
+                                                   else z3.BoolVal(False))), kind="post-exceptional")
+
+
+KERNELS += [StopImplNested, StopImplRoot]
